@@ -214,6 +214,10 @@ type c06Case struct {
 	Sidecar string `json:"sidecar"` // kept | bitflip | truncated | garbage | foreign | deleted
 	Data    string `json:"data"`    // kept | deleted | shortened | lastchunk
 	DmgOff  int    `json:"dmg_off"` // byte within the last complete chunk
+	// Leftover "tmp": a copy of the valid sidecar also lies next to it under
+	// the name the flusher writes before its rename (what a kill between the
+	// two leaves behind)
+	Leftover string `json:"leftover,omitempty"`
 	Hold    bool   `json:"hold"`    // hold the sender's verification until the rest was sent (repair race)
 	// Marks: shape of the recorded set of a "partial" first run: "" = prefix
 	// (+ maybe one scattered later chunk) | "nozero" = chunk 0 missing, a run of
@@ -282,10 +286,13 @@ func c06Key(c c06Case, o c06Out) string {
 	if c.Sidecar == "foreign-samecount" {
 		return "sidecar-foreign-chunk-size-same-count:data-file-" + c.Data
 	}
-	if c.Sidecar == "kept" || c.Sidecar == "foreign" {
+	if (c.Sidecar == "kept" || c.Sidecar == "foreign") && c.Leftover == "" {
 		if c.Data == "deleted" || c.Data == "shortened" {
 			return "sidecar-" + c.Sidecar + ":data-file-" + c.Data
 		}
+	}
+	if c.Leftover != "" {
+		return fmt.Sprintf("tamper:sidecar-%s+flush-temp-file:data-%s:first-%s", c.Sidecar, c.Data, c.First)
 	}
 	return fmt.Sprintf("tamper:sidecar-%s:data-%s:first-%s", c.Sidecar, c.Data, c.First)
 }
@@ -322,6 +329,12 @@ func runC06(e *Env) {
 			for _, sc := range []string{"kept", "bitflip", "truncated", "garbage", "foreign", "foreign-samecount", "deleted"} {
 				for _, data := range []string{"kept", "deleted", "shortened"} {
 					add(c06Case{First: first, Sidecar: sc, Data: data})
+				}
+			}
+			// the flusher's temp file of an interrupted flush lies next to the sidecar
+			for _, sc := range []string{"kept", "truncated", "garbage", "deleted"} {
+				for _, data := range []string{"kept", "deleted", "shortened"} {
+					add(c06Case{First: first, Sidecar: sc, Data: data, Leftover: "tmp"})
 				}
 			}
 			// last complete chunk damaged at sampled positions, natural timing and held verification
@@ -378,7 +391,7 @@ func runC06(e *Env) {
 			e.R.Count("tamper_not_applicable")
 			return
 		}
-		e.R.Distinct(fmt.Sprintf("%s%s/%s/%s/src=%s/off%d/hold%v/cs%d/s%d", c.First, c.Marks, c.Sidecar, c.Data, c.Source, c.DmgOff%int(c.CS), c.Hold || c.HoldEnd || c.HoldChunks, c.CS+uint32(c.ResumeTimeoutMs), c.Streams))
+		e.R.Distinct(fmt.Sprintf("%s%s/%s/%s/src=%s/off%d/hold%v/cs%d/s%d", c.First, c.Marks, c.Sidecar+c.Leftover, c.Data, c.Source, c.DmgOff%int(c.CS), c.Hold || c.HoldEnd || c.HoldChunks, c.CS+uint32(c.ResumeTimeoutMs), c.Streams))
 		res := o.res
 		mu.Lock()
 		switch {
@@ -641,6 +654,9 @@ func runC06Case(e *Env, lp *vk.ListenerPool, c c06Case) c06Out {
 		}
 	case "deleted":
 		_ = os.Remove(scPath)
+	}
+	if c.Leftover == "tmp" {
+		_ = os.WriteFile(scPath+".tmp", scBytes, 0644)
 	}
 	switch c.Data {
 	case "kept":
